@@ -9,6 +9,7 @@ import (
 	"encoding/json"
 	"fmt"
 	"os"
+	"os/exec"
 	"runtime"
 	"sync"
 	"time"
@@ -28,6 +29,9 @@ type drvScenario struct {
 	GoMaxProcs int    `json:"gomaxprocs"`
 	YieldFirst bool   `json:"yield_first"` // let the producer run before acting
 	Prepared   bool   `json:"prepared"`    // use a prepared statement that stays open while the observations are taken
+	// prepared statements only: after the first result set was closed run this command (another connection changing the
+	// file), then execute the SAME statement again and record its columns and rows
+	Between []string `json:"between,omitempty"`
 }
 
 type drvResult struct {
@@ -43,7 +47,11 @@ type drvResult struct {
 	Late    bool     `json:"late"`
 	Panic   string   `json:"panic,omitempty"`
 	Fired   bool     `json:"fired"`
-	Gor     []int    `json:"goroutines"`
+	// page reads of the statement's handle(s) between the call of rows.Close and its return
+	CloseReads int `json:"close_reads"`
+	// second execution of a prepared statement after the command in Between
+	Again map[string]interface{} `json:"again,omitempty"`
+	Gor   []int                  `json:"goroutines"`
 }
 
 var (
@@ -74,6 +82,18 @@ func installDriverHook() {
 		drvMu.Unlock()
 		return d, nil
 	})
+}
+
+func pagerReads() int {
+	drvMu.Lock()
+	defer drvMu.Unlock()
+	n := 0
+	for _, tp := range drvPagers {
+		tp.mu.Lock()
+		n += tp.reads
+		tp.mu.Unlock()
+	}
+	return n
 }
 
 func pagerEvents() int {
@@ -131,8 +151,10 @@ func runDriverScenario(s drvScenario) (res drvResult) {
 	ctx, cancel := context.WithCancel(context.Background())
 	defer cancel()
 	var rows *sql.Rows
+	var stmt *sql.Stmt
 	if s.Prepared {
-		stmt, perr := db.PrepareContext(ctx, s.Query)
+		var perr error
+		stmt, perr = db.PrepareContext(ctx, s.Query)
 		if perr != nil {
 			res.QueryEr = perr.Error()
 			res.Events = append(res.Events, "query_err")
@@ -203,7 +225,9 @@ func runDriverScenario(s drvScenario) (res drvResult) {
 			time.Sleep(2 * time.Millisecond)
 		}
 	}
+	readsBefore := pagerReads()
 	cerr := rows.Close()
+	res.CloseReads = pagerReads() - readsBefore
 	after := pagerEvents()
 	switch {
 	case ended:
@@ -213,6 +237,38 @@ func runDriverScenario(s drvScenario) (res drvResult) {
 		res.Events = append(res.Events, "close_err")
 	default:
 		res.Events = append(res.Events, "close_nil")
+	}
+	if stmt != nil && len(s.Between) > 0 {
+		if out, xerr := exec.Command(s.Between[0], s.Between[1:]...).CombinedOutput(); xerr != nil {
+			res.Again = map[string]interface{}{"exec_err": xerr.Error() + ": " + string(out)}
+		} else if rows2, qerr := stmt.QueryContext(context.Background()); qerr != nil {
+			res.Again = map[string]interface{}{"query_err": qerr.Error()}
+		} else {
+			cols2, _ := rows2.Columns()
+			var out2 [][]jval
+			for rows2.Next() {
+				dest := make([]interface{}, len(cols2))
+				ptrs := make([]interface{}, len(cols2))
+				for i := range dest {
+					ptrs[i] = &dest[i]
+				}
+				if err := rows2.Scan(ptrs...); err != nil {
+					break
+				}
+				for i, v := range dest {
+					if b, ok := v.([]byte); ok {
+						dest[i] = append([]byte{}, b...)
+					}
+				}
+				out2 = append(out2, encVals(dest))
+			}
+			e2 := ""
+			if rows2.Err() != nil {
+				e2 = rows2.Err().Error()
+			}
+			rows2.Close()
+			res.Again = map[string]interface{}{"cols": cols2, "rows": out2, "err": e2}
+		}
 	}
 	res.Locked = ownLocks(s.DB)
 	// settle: goroutines back to the baseline, no producer activity after Close returned
